@@ -68,7 +68,7 @@ func corpusOpener(file string) source.Opener {
 }
 
 const (
-	c14Specials = 70 // pathological + cycles + opener faults
+	c14Specials = 90 // pathological + cycles + opener faults
 )
 
 func (c14) NumCases(tier string, seed int64) int {
@@ -449,6 +449,19 @@ func (p c14) special(c *core.Ctx, k int) {
 			// whatever is asked for, a module of another name that imports b again
 			return strings.NewReader(hdr("zz") + "import b { prefix b; } }"), nil
 		}},
+		sp{name: "range-invert-match", text: hdr("m") + "leaf a { type int32 { range \"1..2\" { modifier invert-match; } } } }"},
+		sp{name: "length-invert-match", text: hdr("m") + "leaf a { type string { length \"1..2\" { modifier invert-match; } } } }"},
+		sp{name: "augment-action-into-top-leaf", text: hdr("m") + "leaf z { type string; } augment \"/z\" { action a; } }"},
+		sp{name: "augment-notification-into-top-leaf", text: hdr("m") + "leaf z { type string; } augment \"/z\" { notification n; } }"},
+		sp{name: "augment-action-into-leaf-list", text: hdr("m") + "container c { leaf-list z { type string; } } augment \"/c/z\" { action a { input { leaf i { type string; } } } } }"},
+		sp{name: "belongs-to-in-module-unprefixed-type", text: "module x { namespace \"n\"; prefix x; belongs-to y { prefix y; } typedef foo { type string; } leaf l { type foo; } }"},
+		sp{name: "belongs-to-in-module-unprefixed-uses", text: "module x { namespace \"n\"; prefix x; belongs-to y { prefix y; } grouping g { leaf a { type string; } } uses g; }"},
+		sp{name: "typedef-union-self", text: hdr("m") + "typedef a { type union { type a; type string; } } leaf l { type a; } }"},
+		sp{name: "typedef-union-cycle", text: hdr("m") + "typedef a { type union { type b; } } typedef b { type union { type a; } } leaf l { type a; } }"},
+		sp{name: "identity-cycle-three", text: hdr("m") + "identity i1 { base i2; } identity i2 { base i3; } identity i3 { base i1; } leaf x { type identityref { base i2; } } }"},
+		sp{name: "identity-cycle-across-modules", byName: "a", mods: map[string]string{
+			"a": hdr("a") + "import b { prefix o; } identity ia { base o:ib; } leaf x { type identityref { base ia; } } }",
+			"b": hdr("b") + "import a { prefix m; } identity ib { base m:ia; } }"}},
 		sp{name: "if-feature-deep-parens", text: hdr("m") + "feature f; leaf x { if-feature \"" + strings.Repeat("(", 20000) + "f" + strings.Repeat(")", 20000) + "\"; type string; } }"},
 	)
 	if k >= len(specials) {
